@@ -53,6 +53,12 @@ GRAMMARS = [
     ('merged-la4', 'start: KA g QA | KB g QB\ng: f\nf: e | e HH\ne: NN\nKA: "k"\nKB: "j"\nQA: "q"\nQB: "u"\nHH: "h"\nNN: "n"\n',
      {'KA': 'k', 'KB': 'j', 'NN': 'n', 'HH': 'h', 'QA': 'q', 'QB': 'u'}),
     ('sep-inl', 'start: item (_sep item)*\nitem: A\n_sep: _C\nA: "a"\n_C: ","\n', {'A': 'a', '_C': ','}),
+    # an inlined left-recursive list shared by two bracket contexts: a wrong closing bracket is rejected only *after* the
+    # list step `_s: _s C x` has been reduced (merged look-ahead), i.e. after the in-place child-list append
+    ('merged-inl', 'start: (lst | tup)+\nlst: L _s R\ntup: P _s Q\n_s: x | _s C x\nx: A\nL: "["\nR: "]"\nP: "("\nQ: ")"\nC: ","\nA: "a"\n',
+     {'L': '[', 'R': ']', 'P': '(', 'Q': ')', 'C': ',', 'A': 'a'}),
+    # line breaks between the tokens: the fork's own lexer must keep counting lines and columns where the original stood
+    ('multiline', 'start: (A | b)*\nb: B\nA: "a"\nB: "b"\n%ignore /[ \\n]+/\n', {'A': 'a', 'B': 'b'}),
     ('plus-inl', 'start: _i+ E\n_i: A B?\nA: "a"\nB: "b"\nE: "e"\n', {'A': 'a', 'B': 'b', 'E': 'e'}),
 ]
 OPTS = [('plain', {}), ('pos', {'propagate_positions': True}), ('ph', {'maybe_placeholders': True, 'keep_all_tokens': True}),
@@ -342,7 +348,7 @@ def explore(gi, oi, depth, res, only=None, lean=False):
 # --------------------------------------------------------------------------------------------------- part B: text attached
 
 TEXTS = {'sep-inl': ['a,a,a', 'a,a'], 'inl-leftrec': ['a,a,a', 'a,a', 'a,,a'], 'rightrec': ['a,a,a', 'a'], 'star': ['abab', 'ba'], 'nullable-tail': ['abb', 'a'],
-         'plus-inl': ['abae', 'aae', 'abb']}
+         'plus-inl': ['abae', 'aae', 'abb'], 'multiline': ['a\nb a\n  b', 'ab\n\n ba b'], 'merged-inl': ['[a,a,a]', '[a,a](a,a)', '(a,a,a)[a]']}
 
 
 def lexpos(ip):
